@@ -22,7 +22,7 @@ from harness import fake_lazrs
 
 fake_lazrs.install()
 
-from harness import common, lasio  # noqa: E402
+from harness import common, lasio, sessions  # noqa: E402
 
 DRIVER = "c14"
 ASSUMPTIONS = [
@@ -109,13 +109,13 @@ def lzdata_for(h):
 def make_data(rng):
     import laspy
     cs = rng.choice(CS_CHOICES)
-    h = lasio.rand_header(rng)
+    h = lasio.rand_header(rng, version=("1.4" if rng.random() < 0.4 else None))
     if rng.random() < 0.3:
         lasio.add_extra_dims(rng, h)
     n = rng.choice([0, 0, 1, max(cs - 1, 0), cs, cs + 1, 2 * cs, 2 * cs + 1, 3 * cs + 2])
     pts = lasio.rand_points(rng, h, n)
     evl = []
-    if h.version.minor >= 4 and rng.random() < 0.5:
+    if h.version.minor >= 4 and rng.random() < 0.6:
         evl = [lasio.rand_vlr(rng, 120) for _ in range(rng.choice([1, 2]))]
     # a partition of the points into chunks (empty ones included)
     cuts, pos = [], 0
@@ -552,7 +552,7 @@ def correspond(ctx):
                 ctx.case(("cursor", d["laz_chunked"], tuple(d["ops"])), nontrivial=True)
                 ctx.count("cursor-history")
                 m = mo.split(" ")
-                exp = [("o" + x[1:] if x != "ox" else "ox") for x in d["cursor"]]
+                exp = list(d["cursor"])
                 mm = [("ox" if t == "ox" else t) for t in (m[1].split(",") if len(m) > 1 and m[1] != "-" else [])]
                 # the model prints seek results as empty record lists
                 ops = d["ops"]
@@ -618,6 +618,62 @@ def cmp_read(bad, tag, desc, mo, got, known_kind):
         bad(f"{tag} of a compressed file", desc, "; ".join(problems)[:150], "see left")
 
 
+def run_session_both(sess, compress, backend):
+    """a C04 writer session (chunks incl. empty / foreign-format ones, write_evlrs, close at any position) on a
+    compressing or plain LasWriter: outcomes per op and the final bytes"""
+    import laspy
+    bio = io.BytesIO()
+    try:
+        w = laspy.LasWriter(bio, sess["header"], do_compress=compress, closefd=False, **(kw(backend) if compress else {}))
+    except Exception as ex:  # noqa
+        return ["open-err:" + common.exc_kind(ex)], None
+    outs = []
+    for op in sess["ops"]:
+        try:
+            if op[0] == "P":
+                w.write_points(op[1])
+            elif op[0] == "E":
+                w.write_evlrs(op[1])
+            else:
+                w.close()
+            outs.append("ok")
+        except Exception as ex:  # noqa
+            outs.append("err:" + common.exc_kind(ex))
+    return outs, bio.getvalue()
+
+
+def mixed_append(rng, raw, h, backend, chunks):
+    """a C06 append session: same-format records, scale-aware records with other scales/offsets, foreign formats"""
+    import laspy
+    bio = io.BytesIO(raw)
+    outs = []
+    with laspy.open(bio, mode="a", closefd=False, **kw(backend)) as a:
+        for c in chunks:
+            try:
+                a.append_points(c)
+                outs.append("ok")
+            except Exception as ex:  # noqa
+                outs.append("err:" + common.exc_kind(ex))
+    return outs, bio.getvalue()
+
+
+def gen_mixed_chunks(rng, h, cs):
+    import laspy
+    out = []
+    for _ in range(rng.randrange(1, 4)):
+        r = rng.random()
+        if r < 0.5:
+            out.append(lasio.rand_points(rng, h, rng.choice([0, 1, cs, cs + 1])))
+        elif r < 0.8:
+            rec0 = lasio.rand_points(rng, h, rng.choice([1, 2, cs + 1]), pattern="small")
+            sc = np.array(h.scales) * rng.choice([1.0, 10.0, 0.5])
+            of = np.array(h.offsets) + rng.choice([0.0, 1.0, -2.5])
+            out.append(laspy.ScaleAwarePointRecord(rec0.array, rec0.point_format, sc, of))
+        else:
+            out.append(sessions.wrong_format_points(rng, h, rng.choice([0, 1, 2])))
+    return out
+
+
 # ---------------------------------------------------------------------------------
 # search: the property stated on the implementation
 # ---------------------------------------------------------------------------------
@@ -666,7 +722,7 @@ def search(ctx, seeds):
         for t, st, ds_ in zip(hh["toks"], hh["states"], hh["desc"]):
             ops_seen.append(ds_)
             if st.startswith("raised"):
-                add("VLR history raised", {"history": ops_seen}, st)
+                add("VLR history raised", {"history": list(ops_seen)}, st)
                 break
             held, _, filev = st.partition(";")
             nh = sum(is_lz(v) for v in lasio.parse_vlrs(held))
@@ -675,13 +731,13 @@ def search(ctx, seeds):
                 c = t[1] == "T"
                 if nf != (1 if c else 0):
                     add("LasZip record " + ("duplicated/missing in a compressed copy" if c else "leaked into an uncompressed copy"),
-                        {"history": ops_seen}, f"{nf} LasZip record(s) in the file written by the last step")
+                        {"history": list(ops_seen)}, f"{nf} LasZip record(s) in the file written by the last step")
             if t[0] == "O":
                 lazy = True
             if t[0] == "T":
                 lazy = False
                 if nh:
-                    add("LasZip record shown after reading", {"history": ops_seen}, f"{nh} LasZip record(s) in the header's VLR list")
+                    add("LasZip record shown after reading", {"history": list(ops_seen)}, f"{nh} LasZip record(s) in the header's VLR list")
             if t[0] == "O" and nh:
                 # allowed only while the point source of a non-empty compressed file does not exist yet
                 raw = hh.get("last")
@@ -806,6 +862,57 @@ def search(ctx, seeds):
                         {**desc, "route": "header taken from a LAZ reader before its point source exists"}, f"{k} LasZip record(s)")
         except Exception as ex:  # noqa
             add("re-writing a compressed file failed", desc, f"{type(ex).__name__}: {ex}")
+    # (d) the writer sessions of C04 (refusals included) and the append sessions of C06 (rescaled and foreign records
+    #     included), compressed against uncompressed: same outcomes, same read-back
+    for _ in range(ctx.n(60, 600)):
+        cs = rng.choice(CS_CHOICES)
+        fake_lazrs.CHUNK_SIZE = cs
+        sess = sessions.gen_writer_session(rng, ctx.thorough())
+        bk = rng.choice(backend_choices())
+        oz, rz_ = run_session_both(sess, True, bk[1])
+        ou, ru_ = run_session_both(sess, False, None)
+        sd = {"chunk_size": cs, "version": str(sess["header"].version), "format": sess["header"].point_format.id, "backend": bk[0],
+              "ops": [(o[0] + (str(len(o[1])) + ("" if o[0] != "P" or o[2] else "!fmt")) if o[0] != "C" else "C") for o in sess["ops"]]}
+        ctx.case(("wsession", repr(sd)), nontrivial=True)
+        ctx.count("writer-session(C04)")
+        for o in oz:
+            ctx.count("writer-session-outcome:" + o)
+        if oz != ou:
+            add("writer session outcomes differ between compressed and uncompressed", sd, f"{oz} vs {ou}")
+        elif rz_ is not None and ru_ is not None and oz and oz[-1] == "ok":
+            try:
+                a, b = read_summary(laspy.read(io.BytesIO(rz_))), read_summary(laspy.read(io.BytesIO(ru_)))
+                dk = diff_keys(b, a)
+                if dk:
+                    add("writer session read-back differs: " + ",".join(dk), sd, {k: (str(b[k])[:60], str(a[k])[:60]) for k in dk[:3]})
+            except Exception as ex:  # noqa
+                add("writer session read-back failed", sd, f"{type(ex).__name__}: {ex}")
+    for d in datasets(ctx)[:ctx.n(60, 600)]:
+        if "error" in d:
+            continue
+        fake_lazrs.CHUNK_SIZE = d["cs"]
+        chunks = gen_mixed_chunks(rng, d["h"], d["cs"])
+        sd = {**d["desc"], "appended": [f"{type(c).__name__[:5]}{len(c)}" for c in chunks]}
+        ctx.case(("mixed-append", repr(sd)), nontrivial=True)
+        ctx.count("append-session(C06 mix)")
+        try:
+            oz, rz_ = mixed_append(rng, d["laz_chunked"], d["h"], d["backend"][1], chunks)
+            ou, ru_ = mixed_append(rng, d["las"], d["h"], None, chunks)
+        except Exception as ex:  # noqa
+            add("mixed append session failed", sd, f"{type(ex).__name__}: {ex}")
+            continue
+        for o in oz:
+            ctx.count("mixed-append-outcome:" + o)
+        if oz != ou:
+            add("append outcomes differ between compressed and uncompressed", sd, f"{oz} vs {ou}")
+            continue
+        try:
+            a, b = read_summary(laspy.read(io.BytesIO(rz_))), read_summary(laspy.read(io.BytesIO(ru_)))
+            dk = diff_keys(b, a)
+            if dk:
+                add("mixed append read-back differs: " + ",".join(dk), sd, {k: (str(b[k])[:60], str(a[k])[:60]) for k in dk[:3]})
+        except Exception as ex:  # noqa
+            add("mixed append read-back failed", sd, f"{type(ex).__name__}: {ex}")
     return failing[:10]
 
 
